@@ -1,7 +1,7 @@
 (* C15 — optimum search.  Only statements, each closed by [exact]. *)
 From Coq Require Import List Arith Lia PeanoNat ZArith Reals Permutation.
 From TV Require Import Num.Ops Lin.Tab Lin.Mat TT.Chain Model.ActOne Model.Optima Proofs.ActOneP2
-  Model.GridInd Model.OptimaFunc Proofs.OptimaP Proofs.OptimaP2 Proofs.OptimaRP Proofs.OptimaQP Proofs.OptimaExP Proofs.OptimaFuncP.
+  Model.GridInd Model.OptimaFunc Proofs.OptimaP Proofs.OptimaP2 Proofs.OptimaRP Proofs.OptimaQP Proofs.OptimaExP Proofs.OptimaFuncP Proofs.OptimaFuncAP Proofs.OptimaFuncR1P.
 Import ListNotations.
 
 (* beam_inv (Kronecker bookkeeping): any commutative ring, both sweep directions, ANY selection that indexes into its
@@ -125,6 +125,23 @@ Proof. exact func_points_dim. Qed.
 Theorem C15_func_constant_poly : forall roots s i (c : R), cand_points OR roots s i [c] = [m1 OR; o1 OR].
 Proof. exact cand_constant. Qed.
 
+(* the candidate list of _find_poly_max (end points + real roots of the derivative inside [-1,1]) carries a maximiser of |p| over
+   [-1, 1], for every polynomial p of the domain on which polyroots is complete (extreme value theorem + Fermat, Coq Ranalysis) *)
+Theorem C15_func_cand_absmax : forall (Dom : list R -> Prop) roots, roots_ok_on Dom roots ->
+  forall s i p z, Dom (polyder OR p) -> in11 z ->
+  exists c, In c (cand_points OR roots s i p) /\ (Rabs (polyval OR p z) <= Rabs (polyval OR p c))%R.
+Proof. exact cand_absmax. Qed.
+
+(* func_rank1_exact (cond: complete root oracle on the derivatives of the squared scaled factors; both argsorts sort; k >= 1,
+   k_loc >= 1): on the rank-1 path (Model/OptimaFunc.v, func_step_r1) the returned point has one coordinate per mode, lies in
+   [-1, 1]^d and the interpolant prod_s f_s(z_s) attains its maximum modulus over the cube there; every d, every degree *)
+Theorem C15_func_rank1_exact : forall roots argsort1 argsort2 (fs : list (list R)) k kl,
+  roots_ok_on (dom_r1 fs) roots -> (forall s, argsort_ok (argsort1 s)) -> argsort_ok argsort2 -> 1 <= k -> 1 <= kl ->
+  let x := optima_func_r1 OR roots argsort1 argsort2 fs k kl in
+  length x = length fs /\ Forall in11 x /\
+  forall z, length z = length fs -> Forall in11 z -> (Rabs (prodf OR fs z) <= Rabs (prodf OR fs x))%R.
+Proof. exact func_rank1_exact. Qed.
+
 (* ---- non-vacuity ---- *)
 (* the oracle contracts can be met: stable insertion sort, identity gauge, Rpower x (1/d), constant 1 *)
 Example C15_contracts_satisfiable : exists argsort orth droot (pow2frac : Z -> nat -> R),
@@ -148,3 +165,11 @@ Example C15_rank1_minmax_refuted :
   Qc_ltb (get OQc Y_ref [0; 1; 0]) (snd (fst (fst ref_result))) = true /\
   Qc_eqb (omul OQc (qz 2) (omul OQc (qz 2) (qz 2))) (qz 8) = true.
 Proof. exact rank1_minmax_refuted. Qed.
+
+(* functional variant: factor x^2 - 1/4 in two modes, the explicit complete root oracle [0; 1/2; -1/2], insertion-sort argsorts *)
+Example C15_example_func_rank1 :
+  roots_ok_on (dom_r1 [f_quad; f_quad]) roots_quad /\
+  (forall s : nat, argsort_ok ((fun _ _ l => argsort_ins OR l) s)) /\ argsort_ok (fun _ l => argsort_ins OR l) /\
+  let x := optima_func_r1 OR roots_quad (fun _ _ l => argsort_ins OR l) (fun _ l => argsort_ins OR l) [f_quad; f_quad] 1 1 in
+  forall z, length z = 2 -> Forall in11 z -> (Rabs (prodf OR [f_quad; f_quad] z) <= Rabs (prodf OR [f_quad; f_quad] x))%R.
+Proof. exact func_rank1_example. Qed.
